@@ -672,7 +672,33 @@ func c16Measure(p *ana.Prog, r *ana.Result, mo, cm *ssa.Function) {
 			}
 		}
 	}
-	// deferred reset 1 -> 0
+	// deferred reset 1 -> 0, registered only once the 0 -> 1 swap has succeeded: a refused attempt
+	// must not release the flag that belongs to the collection in progress
+	var successArms []*ssa.BasicBlock
+	for _, b := range mo.Blocks {
+		if len(b.Instrs) == 0 {
+			continue
+		}
+		iff, ok := b.Instrs[len(b.Instrs)-1].(*ssa.If)
+		if !ok {
+			continue
+		}
+		for si := 0; si < 2; si++ {
+			for _, a := range ana.Implied(iff.Cond, si == 0) {
+				if a.V == ssa.Value(cas) && a.Holds && len(b.Succs[si].Preds) == 1 {
+					successArms = append(successArms, b.Succs[si])
+				}
+			}
+		}
+	}
+	onSuccessArm := func(blk *ssa.BasicBlock) bool {
+		for _, s := range successArms {
+			if s.Dominates(blk) {
+				return true
+			}
+		}
+		return false
+	}
 	deferOK := false
 	ana.Instrs(mo, func(in ssa.Instruction) {
 		d, ok := in.(*ssa.Defer)
@@ -684,6 +710,8 @@ func c16Measure(p *ana.Prog, r *ana.Result, mo, cm *ssa.Function) {
 			df = mc.Fn.(*ssa.Function)
 		} else if f, ok := d.Call.Value.(*ssa.Function); ok {
 			df = f
+		} else if f := d.Call.StaticCallee(); f != nil {
+			df = f
 		}
 		if df == nil {
 			return
@@ -691,8 +719,9 @@ func c16Measure(p *ana.Prog, r *ana.Result, mo, cm *ssa.Function) {
 		for _, c := range ana.CallsIn(df, "sync/atomic.CompareAndSwapUint32") {
 			o, _ := ana.ConstInt(c.Common().Args[1])
 			n, _ := ana.ConstInt(c.Common().Args[2])
-			if o == 1 && n == 0 && cas.Block().Dominates(d.Block()) {
-				deferOK = true
+			if o == 1 && n == 0 {
+				// every deferred release must sit on the success arm
+				deferOK = onSuccessArm(d.Block())
 			}
 		}
 	})
